@@ -79,19 +79,29 @@ CHECKS["C18"] = {
             "{'/', 'ebusd/', '/x/'} + optional suffix, in %x and %{x} notation, that parse and are matchable; x identifier "
             "triples over {a,ab,b_1} (thorough + x, ebusd; field also empty when last) x {get,set,list}: "
             "match(get(c,n,f)) after stripping the direction the way MqttHandler does returns the triple. "
+            "d (delivery): every request of a and b is additionally handed to RequestImpl::add with CRLF line ends whole, "
+            "cut between CR and LF of each line end (and of all at once), b also whole with LF; a sub-universe (TCP <=2 "
+            "args x <=2 chars, thorough <=3 args; HTTP URIs of <=1 segment, thorough <=2, with/without header line) with "
+            "LF and CRLF in EVERY cut into <=3 pieces and byte by byte; command lines and HTTP requests of every length "
+            "200..800 (plain and quoted last argument, long URI, long header) in 255 byte pieces as Connection::run "
+            "receives them: the arguments must equal what the client encoded and the request must be reported complete "
+            "by exactly the piece carrying the terminating LF. "
             "distinct = distinct vectors / URIs / (template, triple).",
     "assumptions": [
         "a token is a maximal run of non-blank characters; a quoted argument ends at the first token ending with the "
         "opening quote character (a lone quote as first token only opens); arguments no encoding can express are skipped",
         "a '%' not followed by two hex digits is not an escape: it stays literally or the request is refused (400)",
+        "a line ends with LF or CRLF, the CR of a CRLF line end is not part of the last argument; the byte stream may "
+        "be cut anywhere between two add() calls (one add per recv of <=255 bytes); a CR that is not part of a line end "
+        "is not generated",
         "MQTT: the handler strips the text after the last '/' as direction before matching (as notifyMqttTopic does); "
         "only variables present in the template are compared",
     ],
     "runs": [{
         "harness": "c18_parse", "sources": ["engines/cmdmc/c18_parse.cpp"], "deps": _FIX,
         "variant": "plain", "libset": "full",
-        "quick": {"parts": 16, "deadline": 80, "bounds": "a: <=3 args x <=2 chars, <=2 args x <=3 chars; b: <=4 segments, raw <=6; c: 3 identifiers"},
-        "thorough": {"parts": 16, "deadline": 800, "bounds": "a: <=3 args x <=3 chars; b: <=5 segments, raw <=7; c: 5 identifiers"},
+        "quick": {"parts": 16, "deadline": 80, "bounds": "a: <=3 args x <=2 chars, <=2 args x <=3 chars; b: <=4 segments, raw <=6; c: 3 identifiers; d: LF/CRLF x {whole, CR|LF cuts} on all of a,b + all <=3-piece cuts on the sub-universe + lengths 200..800 in 255 byte pieces"},
+        "thorough": {"parts": 16, "deadline": 800, "bounds": "a: <=3 args x <=3 chars; b: <=5 segments, raw <=7; c: 5 identifiers; d: as quick on the thorough universes, sub-universe <=3 args / <=2 segments"},
     }],
 }
 
